@@ -12,6 +12,7 @@ import (
 	"path/filepath"
 	"runtime"
 	"sort"
+	"strconv"
 	"strings"
 	"sync"
 	"sync/atomic"
@@ -808,12 +809,21 @@ func compareOne(s *reqSpec, rq *requester, a, b *result, ageA, ageB time.Duratio
 		if ma == nil || mb == nil {
 			continue
 		}
-		// self-identification
-		if mb.Id != s.ID {
-			return &mismatch{"stack:foreign-id", "response carries another request's ID", map[string]any{"got": mb.Id}}
-		}
-		if len(mb.Question) != 1 || !strings.EqualFold(mb.Question[0].Name, s.Name) || mb.Question[0].Qtype != s.QType {
-			return &mismatch{"stack:foreign-question", "response carries another request's question", map[string]any{"got": fmt.Sprint(mb.Question)}}
+		// self-identification (in both phases)
+		for _, pm := range []struct {
+			phase string
+			m     *dns.Msg
+		}{{"sequential", ma}, {"concurrent", mb}} {
+			if pm.m.Id != s.ID {
+				return &mismatch{"stack:foreign-id", "response carries another request's ID", map[string]any{"phase": pm.phase, "got": pm.m.Id, "response": pm.m.String()}}
+			}
+			wantClass := uint16(dns.ClassINET)
+			if s.Debug {
+				wantClass = dns.ClassCHAOS
+			}
+			if len(pm.m.Question) != 1 || !strings.EqualFold(pm.m.Question[0].Name, s.Name) || pm.m.Question[0].Qtype != s.QType || pm.m.Question[0].Qclass != wantClass {
+				return &mismatch{"stack:foreign-question", "response carries another request's question", map[string]any{"phase": pm.phase, "got": fmt.Sprint(pm.m.Question), "response": pm.m.String()}}
+			}
 		}
 		if bytes.Equal(a.packed[i], b.packed[i]) {
 			counters["byte_identical"]++
@@ -908,6 +918,12 @@ func runStackMonitor(r *vkit.Run, httpsDefect bool) {
 		maxHints = 4
 		r.Assume("stack differential: upstream HTTPS answers (wire-parsed, as from the real forwarder) carry <= 4 ipv4hint/ipv6hint addresses while cloner:https-hint-pool-aliasing is present (1..8 once it is fixed)")
 	}
+	if v := os.Getenv("C07_FORCE_STACK_MAX_HINTS"); v != "" {
+		// diagnostic only: show the impact of the hint-pool aliasing in the stack
+		if n, err := strconv.Atoi(v); err == nil && n >= 1 && n <= 8 {
+			maxHints = n
+		}
+	}
 	r.Extra("stack_upstream_max_hints", maxHints)
 	rqs := requesters()
 	n := r.N(2000, 20000)
@@ -938,46 +954,58 @@ func runStackMonitor(r *vkit.Run, httpsDefect bool) {
 		return
 	}
 	resA, durA := runPhase(r, wA, specs, rqs, 1)
-	upsB := &upstreamFn{maxHints: maxHints}
-	wB, err := newWorld(filepath.Join(scratch, "b"), yield, upsB)
-	if err != nil {
-		r.Inconclusive("cannot build stack instance 2: " + err.Error())
-		return
-	}
-	resB, durB := runPhase(r, wB, specs, rqs, 32)
-	r.Extra("stack_phase_seconds", map[string]float64{"sequential": durA.Seconds(), "concurrent": durB.Seconds()})
-
 	counters := map[string]int64{}
 	shapes := map[string]int64{}
+	rounds := r.N(3, 8)
+	durs := map[string]float64{"sequential": durA.Seconds()}
+	var upCallsB, fltErrsB int64
+	for round := 0; round < rounds; round++ {
+		upsB := &upstreamFn{maxHints: maxHints}
+		wB, err := newWorld(filepath.Join(scratch, fmt.Sprintf("b%d", round)), yield, upsB)
+		if err != nil {
+			r.Inconclusive("cannot build stack instance 2: " + err.Error())
+			return
+		}
+		resB, durB := runPhase(r, wB, specs, rqs, 32)
+		durs[fmt.Sprintf("concurrent_round_%d", round)] = durB.Seconds()
+		upCallsB += upsB.calls.Load()
+		fltErrsB += wB.fltErrs.n.Load()
+		for i := range specs {
+			s := &specs[i]
+			rq := &rqs[s.Requester]
+			a, b := &resA[i], &resB[i]
+			mm := compareOne(s, rq, a, b, a.end, b.end, counters)
+			if mm != nil {
+				info := map[string]any{"round": round, "request": s, "requester": rq, "sequential_packed": hexs(a.packed), "concurrent_packed": hexs(b.packed)}
+				for k, v := range mm.info {
+					info[k] = v
+				}
+				r.Violation(mm.key, mm.what, info)
+				counters["mismatches"]++
+			}
+			qc := "IN"
+			if s.Debug {
+				qc = "CH"
+			}
+			class := fmt.Sprintf("%s|%s|%s|%s|edns=%v", s.Class, s.Who, dns.TypeToString[s.QType], qc, s.EDNS)
+			r.Eval(class, b.overlap)
+			if b.overlap {
+				counters["requests_overlapping_in_time"]++
+			}
+			if len(b.resps) > 0 {
+				counters["responses_concurrent"]++
+			}
+		}
+	}
+	r.Extra("stack_phase_seconds", durs)
+	r.Extra("stack_concurrent_rounds", rounds)
 	for i := range specs {
 		s := &specs[i]
-		rq := &rqs[s.Requester]
-		a, b := &resA[i], &resB[i]
-		mm := compareOne(s, rq, a, b, a.end, b.end, counters)
-		if mm != nil {
-			info := map[string]any{"request": s, "requester": rq, "sequential_packed": hexs(a.packed), "concurrent_packed": hexs(b.packed)}
-			for k, v := range mm.info {
-				info[k] = v
-			}
-			r.Violation(mm.key, mm.what, info)
-			counters["mismatches"]++
-		}
-		qc := "IN"
-		if s.Debug {
-			qc = "CH"
-		}
-		class := fmt.Sprintf("%s|%s|%s|%s|edns=%v", s.Class, s.Who, dns.TypeToString[s.QType], qc, s.EDNS)
-		r.Eval(class, b.overlap)
-		if b.overlap {
-			counters["requests_overlapping_in_time"]++
-		}
+		a := &resA[i]
 		var ra *dns.Msg
 		if len(a.resps) > 0 {
 			ra = a.resps[0]
 			counters["responses_sequential"]++
-		}
-		if len(b.resps) > 0 {
-			counters["responses_concurrent"]++
 		}
 		sh := shapeOf(ra)
 		shapes[strings.SplitN(s.Class, "@", 2)[0]+" -> "+sh]++
@@ -1010,7 +1038,7 @@ func runStackMonitor(r *vkit.Run, httpsDefect bool) {
 			}
 		}
 		if i%331 == 7 {
-			smp := map[string]any{"monitor": "stack differential", "request": s, "overlapped_others": b.overlap}
+			smp := map[string]any{"monitor": "stack differential", "request": s}
 			if ra != nil {
 				smp["response_sequential"] = ra.String()
 			}
@@ -1018,11 +1046,11 @@ func runStackMonitor(r *vkit.Run, httpsDefect bool) {
 		}
 	}
 	counters["upstream_calls_sequential"] = upsA.calls.Load()
-	counters["upstream_calls_concurrent"] = upsB.calls.Load()
+	counters["upstream_calls_concurrent"] = upCallsB
 	counters["cache_hits_sequential_lower_bound"] = int64(len(specs)) - upsA.calls.Load()
-	counters["cache_hits_concurrent_lower_bound"] = int64(len(specs)) - upsB.calls.Load()
+	counters["cache_hits_concurrent_lower_bound"] = int64(len(specs)*rounds) - upCallsB
 	counters["written_responses_disposed"] = disposedWritten.Load()
-	counters["filter_errors_collected"] = wA.fltErrs.n.Load() + wB.fltErrs.n.Load()
+	counters["filter_errors_collected"] = wA.fltErrs.n.Load() + fltErrsB
 	for k, v := range counters {
 		r.Bucket("stack_"+k, v)
 	}
